@@ -191,6 +191,9 @@ func diffAt(got, want []byte) string {
 
 func oracleSocks5(sp *Spec, r *Result, ex expectation, f *fails) {
 	honoured := serverSide(sp, r, ex, f)
+	if len(*f) > 0 {
+		return // what the server did is already wrong; the wire and client checks would only restate it
+	}
 	wanted := sp.wantedMethod()
 
 	// ---- client -> server bytes (the repository's client only; the raw client is ours)
@@ -409,6 +412,9 @@ func dialName(code uint8) string {
 
 func oracleHTTP(sp *Spec, r *Result, ex expectation, f *fails) {
 	honoured := serverSide(sp, r, ex, f)
+	if len(*f) > 0 {
+		return
+	}
 	shape := authShape(sp) + "," + outcomeShape(sp)
 
 	// ---- client -> server
